@@ -3,6 +3,7 @@ louvain_communities = last level).  Termination, nesting and monotone modularity
 from core import ASSUME_RUSTC, ASSUME_PATHS
 from engines import errorkind_sites
 from flow import Flows, L, fmt_desc
+from props.c01 import controlling_atoms
 from guard import ok_producers
 import panic
 import pathsens
@@ -329,6 +330,26 @@ def run(ctx):
             ctx.require(reads_attr, "R-C13-10", "member-sets|%d" % n10, "the member set of a community node is built from its members' attributes",
                         "generate_graph builds the member set of a community node without reading its members' `attributes`: from the third level on the members are community indexes of the level below, not original nodes, so compute_one_level moves the wrong ids between communities -- the later levels are no longer partitions of the graph nor coarsenings of the level before", loc_str(t.span))
     ctx.floor("R-C13-10", "community_nodes_built", n10, 1)
+    # ------------------------------------------------------------------ R-C13-12
+    # an unweighted run ("weighted == false") works on unit weights: convert_graph replaces every weight by 1 exactly
+    # then -- whatever weights the caller's edges carry.  If stored weights survive into an unweighted run the degrees and
+    # neighbour weights are weighted while m is the edge COUNT, the gain is not the modularity change, and modularity can
+    # decrease from one level to the next.
+    ctx.rule("R-C13-12", "convert_graph normalises the weights to 1 exactly when `weighted` is false (no other test takes part in that decision)")
+    cg = prog.find("louvain::convert_graph")
+    n12 = 0
+    for cb12 in cg:
+        f12 = flows.of(cb12)
+        for t12 in cb12.calls():
+            if not (t12.callee and t12.callee.short.endswith("Graph::set_all_edge_weights")):
+                continue
+            n12 += 1
+            atoms12 = controlling_atoms(f12, t12.bb)
+            on_unweighted = any(isinstance(te, tuple) and te[0] == "place" and te[1] == "weighted" and v is False for (te, v, a) in atoms12)
+            others = [fmt_desc(te)[:60] for (te, v, a) in atoms12 if not (isinstance(te, tuple) and te[0] == "place" and te[1] == "weighted") and not (isinstance(te, tuple) and te[0] == "place" and te[1].endswith("specs.multi_edges"))]
+            ctx.require(on_unweighted and not others, "R-C13-12", "unit-weights|%d" % n12, "set_all_edge_weights(1.0) runs exactly on the `weighted == false` outcome",
+                        "the replacement of the weights by 1 in convert_graph %s%s: an unweighted run on a graph whose edges carry weights keeps those weights, so degrees and neighbour weights are weighted while m counts edges -- the gain is no longer the modularity change and modularity can decrease between levels" % ("is not on the `weighted == false` outcome" if not on_unweighted else "also depends on ", "" if not others else ", ".join(others)), loc_str(t12.span))
+    ctx.counters["unit_weight_normalisations"] = n12
     # ------------------------------------------------------------------ R-C13-11
     # the neighbour-community weights are sums over ALL neighbours of the node; the only neighbour that is skipped is
     # the node itself (its self-loop).  Skipping is `continue`: a loop over the neighbours that can be LEFT before the
